@@ -407,6 +407,11 @@ func c05ServerName(w *World, r *Report) {
 					return
 				}
 			}
+			// ... or receives it through a parameter of a configuration builder: then every caller passes Hostname()
+			if valueIsHostname(w, st.Val) {
+				r.Hold("R05.4", key, w.Pos(st.Pos()), "ServerName is a parameter that every caller fills with (*url.URL).Hostname() of the configured address")
+				return
+			}
 			r.Violate("R05.4", key, w.Pos(st.Pos()), "the expected server name is not taken from the client connection's configured host")
 		})
 	}
@@ -1320,6 +1325,24 @@ func c05DialServerName(w *World, r *Report) {
 						}
 					}
 				}
+				// the configuration comes out of a builder helper that sets the name on every path that returns one
+				if !set {
+					for _, cr := range provenance(cfg, provOpts{}) {
+						var call *ssa.Call
+						switch x := cr.(type) {
+						case *ssa.Call:
+							call = x
+						case *ssa.Extract:
+							call, _ = x.Tuple.(*ssa.Call)
+						}
+						if call == nil {
+							continue
+						}
+						if h := call.Call.StaticCallee(); h != nil && inModule(h) && cfgBuilderSetsName(w, h, call, serverName) {
+							set = true
+						}
+					}
+				}
 				if !set {
 					bad = "the dialled address is the resolved one (an IP) and Config.ServerName is not set from the upstream's Hostname() on this path: crypto/tls verifies the certificate against the IP address — a certificate matching the configured host name is refused and one that merely carries the IP is accepted"
 				}
@@ -1556,4 +1579,105 @@ func errKnownNil(st *pathState, call ssa.Instruction) bool {
 		}
 	}
 	return false
+}
+
+// valueIsHostname: every origin of v — parameters followed to all their call sites in the module — is a call of
+// (*url.URL).Hostname().
+func valueIsHostname(w *World, v ssa.Value) bool {
+	var cone []*ssa.Function
+	for f := range allModuleFuncs(w, w.SSA()) {
+		cone = append(cone, f)
+	}
+	sort.Slice(cone, func(i, j int) bool { return cone[i].Pos() < cone[j].Pos() })
+	var roots []ssa.Value
+	for _, r0 := range provInter(v, 0) {
+		roots = append(roots, provWithCallers(r0, cone, 0)...)
+	}
+	if len(roots) == 0 {
+		return false
+	}
+	for _, root := range roots {
+		ok := false
+		for _, r1 := range provInter(root, 0) {
+			if call, isC := r1.(*ssa.Call); isC && isMethod(sCallee(call), "net/url", "URL", "Hostname") {
+				ok = true
+			}
+		}
+		if !ok {
+			return false
+		}
+	}
+	return true
+}
+
+// cfgBuilderSetsName: h returns a *tls.Config (first result); on every path that returns a non-nil one, ServerName
+// of that very object was stored from Hostname() or from a parameter that this call site fills with Hostname().
+func cfgBuilderSetsName(w *World, h *ssa.Function, site *ssa.Call, serverName *types.Var) bool {
+	if len(h.Blocks) == 0 {
+		return false
+	}
+	isStore := func(in ssa.Instruction) bool {
+		st, ok := in.(*ssa.Store)
+		if !ok {
+			return false
+		}
+		fa := asFieldAddr(st.Addr)
+		return fa != nil && fieldVarOf(fa) == serverName
+	}
+	good, n := true, 0
+	okp := enumPaths(h, nil, isStore, nil, func(e pathExit) {
+		ret, isRet := e.Last.(*ssa.Return)
+		if !isRet || len(ret.Results) == 0 {
+			return
+		}
+		res := e.State.Resolve(ret.Results[0])
+		if c, isC := res.(*ssa.Const); isC && c.IsNil() {
+			return
+		}
+		n++
+		set := false
+		for _, ev := range e.State.Events {
+			st := ev.(*ssa.Store)
+			same := false
+			for _, b := range provenance(st.Addr.(*ssa.FieldAddr).X, provOpts{}) {
+				for _, cr := range provenance(res, provOpts{}) {
+					if b == cr {
+						same = true
+					}
+				}
+			}
+			if !same {
+				continue
+			}
+			all := true
+			roots := provenance(st.Val, provOpts{})
+			for _, root := range roots {
+				if call, isC := root.(*ssa.Call); isC && isMethod(sCallee(call), "net/url", "URL", "Hostname") {
+					continue
+				}
+				if p, isP := root.(*ssa.Parameter); isP {
+					idx := paramIndex(h, p)
+					if idx >= 0 && idx < len(site.Call.Args) {
+						argOk := false
+						for _, ar := range provInter(site.Call.Args[idx], 0) {
+							if call, isC := ar.(*ssa.Call); isC && isMethod(sCallee(call), "net/url", "URL", "Hostname") {
+								argOk = true
+							}
+						}
+						if argOk {
+							continue
+						}
+					}
+				}
+				all = false
+			}
+			if all && len(roots) > 0 {
+				set = true
+			}
+		}
+		if !set {
+			good = false
+		}
+	})
+	return okp && good && n > 0
 }
